@@ -188,6 +188,19 @@ CLAIMED = {
         note='the solver enumerates a finite history space (honest note in DESIGN); one value token symbolic; '
              'oracle = real code on a fresh schema',
         ref='DESIGN.md section 7 C13'),
+    'C20': dict(
+        text='REDUCED SCOPE. z3 shows on every path that logging_level (all strings up to the bound), the '
+             'FileHandlerFactory option logic (max-size, old-files, interval as unbounded z3 integers; when, '
+             'delay, encoding, path as z3 choices) and the style / facility / method converters equal the '
+             'documented decision tables. Finite parts driven through the engine: logger/eventlog factories '
+             '(name, level, propagate, handlers in order with level and format, idempotent), every sequence of '
+             '{call factory, reopenFiles, closeFiles, drop references} up to the bound on real temp-file '
+             'handlers, and 29 formats over the four styles (accepted at load time => formatter builds and '
+             'formats an ordinary record).',
+        note='trusted: z3, engine models (replayed per path), reference tables in vf/harness/c20.py; {-/$-'
+             'format validation on symbolic formats, rotation behaviour, syslog/SMTP/HTTP/NT handlers are '
+             'outside the claim',
+        ref='DESIGN.md section 7 C20'),
 }
 
 NOT_YET = 'harness not built yet in this revision (see DESIGN.md section 7 for the plan)'
